@@ -238,6 +238,16 @@ func (v Val) Value() any {
 		if d < 1 {
 			d = 1
 		}
+		if d > 3 {
+			// *...*T with d levels, built by reflection (a leaf may be a pointer to a primitive at ANY depth)
+			rv := reflect.ValueOf(v.Elems[0].Value())
+			for i := 0; i < d; i++ {
+				p := reflect.New(rv.Type())
+				p.Elem().Set(rv)
+				rv = p
+			}
+			return rv.Interface()
+		}
 		return ptrTo(v.Elems[0].Value(), d)
 	case "zstack": // a zero-valued Stack stored as a plain value
 		return stackage.Stack{}
